@@ -324,6 +324,35 @@ pub fn run(r: &mut Rec) {
             value_case(r, &format!("big {} radix {} {:?}", len, radix, pat), &d, &[radix], false);
         }
     }
+    // radix^K plus a small part c with chunk base <= c < 2^64 (fits one native digit, yet needs power + 1 output digits), the
+    // small part also moved up by whole chunks: long zero runs inside and between the chunks of the big-base path
+    for &radix in &[10u32, 3, 7, 36, 100, 255] {
+        let (mut base, mut power) = (radix as u64, 1u32);
+        while let Some(nb) = base.checked_mul(radix as u64) {
+            base = nb;
+            power += 1;
+        }
+        let cs: Vec<u64> = vec![base, base + 1, u64::MAX, base / 2 + (1u64 << 63), base - 1];
+        for (kk, big_k) in [1300u32, 2600].iter().enumerate() {
+            if !r.thorough && kk == 1 && radix != 10 {
+                continue;
+            }
+            let p = BigUint::from(radix).pow(*big_k);
+            for (ci, c) in cs.iter().enumerate() {
+                if !r.thorough && (ci + kk) % 2 == 1 {
+                    continue;
+                }
+                for up in [0u32, 7 * power] {
+                    let v = &p + BigUint::from(*c) * BigUint::from(radix).pow(up);
+                    if radix <= 36 {
+                        value_case(r, &format!("{}^{} + c{} * r^{}", radix, big_k, ci, up), &v.verif_raw().to_vec(), &[radix], false);
+                    } else {
+                        radix_vec_case(r, &format!("{}^{} + c{} * r^{}", radix, big_k, ci, up), &v.verif_raw().to_vec(), &[radix]);
+                    }
+                }
+            }
+        }
+    }
     // multiples of radix^k (runs of zero output digits) and radix^k +- 1
     for &radix in &[3u32, 7, 10, 36, 2, 8, 32] {
         for k in [1u32, 19, 20, 40, 41, 100, 400, 1300] {
